@@ -73,6 +73,21 @@ class C05(Prop):
                                 ops += [G.op_setenv(ci, upd), cfg, {"op": "dumpfs"}, mk(v0 if state == "equal" else v1), {"op": "dumpfs"}]
                                 cases.append({"ci": False, "updvar": "unset", "colour": False, "ops": ops,
                                               "meta": {"cell": [ci, opt, upd, api, state]}})
+        # "on CI no call and NO CLEAN ever creates, modifies or deletes anything" / "Clean deletes obsolete items only when ...":
+        # an existing EMPTY snapshot directory addressed by a call that may create nothing, then Clean - files and directories
+        # must be exactly what they were
+        for ci in (True, False):
+            for upd in ("unset", "true", "clean", "other"):
+                for api in ("snap", "stand", "json"):
+                    if not ci and upd in ("true", "clean"):
+                        continue          # deletion of obsolete FILES is allowed there (C09 judges what exactly)
+                    opt = None if ci else False
+                    mk = {"snap": G.op_match_snap(1, b"TestEmpty", [b"v"]), "stand": G.op_match_doc("stand", 1, b"TestEmpty", b"v"),
+                          "json": G.op_match_doc("json", 1, b"TestEmpty", b'{"a":1}')}[api]
+                    ops = [{"op": "putdir", "path": hx(b"emptydir/__snapshots__")}, G.op_putfile(b"emptydir/other/old_test.snap", b"\n[TestOld - 1]\nx\n---\n"),
+                           G.op_setenv(ci, upd), G.op_newconfig(dir=b"emptydir/__snapshots__", upd=opt), mk, G.op_end(b"TestEmpty"),
+                           {"op": "dumpfs"}, {"op": "clean", "sort": True, "count": 1, "colour": False}, {"op": "dumpfs"}]
+                    cases.append({"ci": False, "updvar": "unset", "colour": False, "ops": ops, "meta": {"cell": None, "readonly_clean": [ci, upd, api]}})
         return cases
 
     def extra_coverage(self):
@@ -180,6 +195,19 @@ class C05(Prop):
 
     def oracle(self, case, ops, results):
         cell = case["meta"].get("cell")
+        if case["meta"].get("readonly_clean"):
+            fs_ = [r for r in results if r[0] == "fs"]
+            dl = [r for r in results if r[0] == "dirs"]
+            if len(fs_) != 2 or len(dl) != 2 or "*" in (dl[0][2].get("list"), dl[1][2].get("list")):
+                return self.skip("guard")
+            fails = []
+            if fs_[0][2] != fs_[1][2]:
+                fails.append({"msg": "Clean in a read-only mode %s changed the files" % (case["meta"]["readonly_clean"],)})
+            d0, d1 = set(dl[0][2]["list"].split(",")), set(dl[1][2]["list"].split(","))
+            if d0 != d1:
+                fails.append({"msg": "Clean in a read-only mode %s changed the directories: removed %s created %s" % (
+                    case["meta"]["readonly_clean"], [unhx(x) for x in sorted(d0 - d1)], [unhx(x) for x in sorted(d1 - d0)])})
+            return fails
         if not cell:
             return self.skip("guard")
         ci, opt, upd, api, state = cell
